@@ -141,6 +141,31 @@ func init() {
 	reg("runtime.GOMAXPROCS", func(m *Machine, fn *ssa.Function, a []Value) Value {
 		return intrinsics["runtime.NumCPU"](m, fn, nil)
 	})
+	mkfifo := func(m *Machine, fn *ssa.Function, a []Value) Value {
+		p := m.mustStr(a[0], "Mkfifo")
+		w := m.Env
+		ab := w.abs(p)
+		m.crashPoint("mkfifo " + p)
+		w.event(m, "mkfifo", p)
+		if w.node(ab) != nil {
+			return m.errVal("EEXIST", "mkfifo "+p+": file exists")
+		}
+		if !w.parentExists(ab) || !w.dotDotOK(w.Cwd, p) {
+			return m.errVal("ENOENT", "mkfifo "+p+": no such file or directory")
+		}
+		w.nextIno++
+		w.Nodes[ab] = &Node{Kind: KFifo, Ino: w.nextIno}
+		return nilErr()
+	}
+	reg("syscall.Mkfifo", mkfifo)
+	reg("golang.org/x/sys/unix.Mkfifo", mkfifo)
+	reg("syscall.Mknod", func(m *Machine, fn *ssa.Function, a []Value) Value {
+		const sIFIFO = 0x1000
+		if m.toInt(a[1])&0xf000 != sIFIFO {
+			m.unsupported("syscall.Mknod of something that is not a FIFO")
+		}
+		return mkfifo(m, fn, a)
+	})
 	reg("os.TempDir", func(m *Machine, fn *ssa.Function, a []Value) Value { return "/tmp" })
 	reg("os.Chdir", func(m *Machine, fn *ssa.Function, a []Value) Value {
 		p := m.mustStr(a[0], "os.Chdir")
